@@ -115,6 +115,13 @@ class Spec:
         w = line.split()
         t, op, a = int(w[0]), w[1], w[2:]
         th = self.th(t)
+        # an `Event` built earlier (`evNew`, not a tracing call) and attached now is an event attached now
+        if op == "evNew":
+            return
+        if op == "lAddEventPre":
+            op, a = "lAddEvent", a[1:]
+        elif op == "addEventPre":
+            op, a = "addEvent", [a[0]] + a[2:]
         if op == "setReporter":
             self.reporter = True
             self.cancelable = a[0] == "1"
@@ -470,6 +477,7 @@ class Gen:
             self.k["multi"] = False
         self.s = Spec()
         self.lines = []
+        self.evpool = {}
         self.n = 0
         self.vars = 0
         self.trace_ctr = 0
@@ -562,7 +570,26 @@ class Gen:
     def op_add_props(self, t, v):
         self.emit(t, "addProps %s %s" % (v, self.closure()))
 
+    def maybe_prebuild(self, t):
+        """knob `prebuilt`: an `Event` value is built here (before a span is entered) and attached by a later call"""
+        if self.k.get("prebuilt") and self.r.chance(1, 3):
+            props = None if self.r.chance(1, 3) else self.kvs()
+            e = "ev%d" % (len(self.lines))
+            txt = "%s %s" % (hx(self.name("e")), "none" if props is None else wprops(props))
+            self.emit(t, "evNew %s %s" % (e, txt))
+            self.evpool.setdefault(t, []).append((e, txt))
+
+    def pooled(self, t):
+        pool = self.evpool.get(t)
+        if pool and self.r.chance(2, 3):
+            return pool.pop(self.r.below(len(pool)))
+        return None
+
     def op_add_event(self, t, v):
+        pre = self.pooled(t)
+        if pre:
+            self.emit(t, "addEventPre %s %s %s" % (v, pre[0], pre[1]))
+            return
         props = None if self.r.chance(1, 3) else self.kvs()
         self.emit(t, "addEvent %s %s %s" % (v, hx(self.name("e")), "none" if props is None else wprops(props)))
 
@@ -582,12 +609,14 @@ class Gen:
         self.emit(t, "ctxLocal")
 
     def op_scope(self, t, v):
+        self.maybe_prebuild(t)
         self.emit(t, "scope %s" % v)
 
     def op_collector(self, t):
         self.emit(t, "collectorStart")
 
     def op_local_enter(self, t):
+        self.maybe_prebuild(t)
         self.emit(t, "localEnter %s" % hx(self.name("l")))
 
     def op_close(self, t):
@@ -630,6 +659,10 @@ class Gen:
         self.emit(t, "lAddProps %s" % self.closure())
 
     def op_l_add_event(self, t):
+        pre = self.pooled(t)
+        if pre:
+            self.emit(t, "lAddEventPre %s %s" % (pre[0], pre[1]))
+            return
         props = None if self.r.chance(1, 3) else self.kvs()
         self.emit(t, "lAddEvent %s %s" % (hx(self.name("e")), "none" if props is None else wprops(props)))
 
